@@ -207,19 +207,19 @@ pub fn add_raw(sh: &shell::Shell, line: &str, status: i32,
             return;
         }
     };
+    // the values are bound, never spliced into the SQL text: command lines
+    // and directory names may contain quotes
     let sql = format!(
         "INSERT INTO \
          {} (inp, rtn, tsb, tse, sessionid, info) \
-         VALUES('{}', {}, {}, {}, '{}', 'dir:{}|');",
+         VALUES(?1, ?2, ?3, ?4, ?5, ?6);",
         history_table,
-        str::replace(line.trim(), "'", "''"),
-        status,
-        tsb,
-        tse,
-        sh.session_id,
-        sh.current_dir,
     );
-    match conn.execute(&sql, []) {
+    let info = format!("dir:{}|", sh.current_dir);
+    match conn.execute(
+        &sql,
+        rusqlite::params![line.trim(), status, tsb, tse, sh.session_id, info],
+    ) {
         Ok(_) => {}
         Err(e) => println_stderr!("cicada: history: save error: {}", e),
     }
